@@ -42,9 +42,9 @@ CHECKS = {
   "design_ref": "DESIGN.md section 6 / C13",
  },
  "C14": {
-  "text": "Executable Lean model of the TFRC sender (send_rate.rs, recv_rate_set.rs) generic over FloatOps, bit-exact Float instance compared with the code in every probe; implementation-side oracle for each clause (ceiling, floor, no increase / keep-or-halve without feedback, slow-start doubling bound, equation bound). Found and repaired F13, F6, F7, F16. Ordering theorems over every FloatOps are in progress (evidence.partial).",
-  "note": "Partial: theorems in progress; accuracy of the IEEE evaluation of the throughput equation is modelled, not verified.",
-  "technique": "Lean 4 model generic over FloatOps + bit-exact differential correspondence + per-clause oracle",
+  "text": 'Lean theorems for EVERY floating-point behaviour (FloatOps abstract) on the TFRC sender model: C14_ceiling / C14_ceiling_run (rate <= max_send_rate in every reachable state, ceilings >= 1472), C14_floor_nofb, C14_floor_fb_eqn, C14_floor_run / C14_bounds_run (floor and ceiling along runs; the one side condition initRate(rtt) >= 23 is shown necessary by witness theorems), C14_nofb_monotone(+_run) (no increase, keep-or-halve without feedback), C14_slowstart (<= max(2x, W_init/rtt)), C14_eqn / C14_eqn_enter (<= max(X_Bps, floor); bisection exit condition exactly: C14_tcpInv_exact), C14_rtt (EWMA). The proofs found defect F17 (rate below floor) before any test did; F13 F6 F7 F16 found by the oracle; all repaired and mirrored. Bit-exact Float instance compared with the code in every probe; per-clause oracle on the implementation.',
+  "note": 'Trusted: Lean kernel (propext, Classical.choice, Quot.sound), extract_consts.py, harness/driver. Modelled not verified: IEEE accuracy of the throughput equation (theorems quantify over all FloatOps). Residual: floor on the first slow-start feedback needs initRate(rtt) >= 23, i.e. an RTT sample below 190 s.',
+  "technique": 'Lean 4 proofs over all FloatOps (invariants along runs, witness theorems for false variants) + bit-exact differential correspondence + per-clause oracle',
   "design_ref": "DESIGN.md section 6 / C14",
  },
  "C15": {
@@ -54,9 +54,9 @@ CHECKS = {
   "design_ref": "DESIGN.md section 6 / C15",
  },
  "C07": {
-  "text": 'Executable Lean model of the server and client handshake state machines; every datagram and event of real Client/Server objects behind harness relays is compared with the model under loss/dup/reorder and forged handshake frames (random, stale, replayed, off-by-one nonces, wrong version, incompatible sizes, also at established connections). Oracle: server Connect only after a delivered ACK carrying a nonce the server issued in answer to a delivered SYN; client Connect / ACK only for SYN-ACKs echoing its own nonce; first data frame ids start at the nonces; refusals carry the right code.',
-  "note": 'Partial until the endpoint theorems land (in progress): the claim rests on exact correspondence of model and real Client/Server plus the implementation-side oracle. Trusted: relay harness, loopback UDP ordering.',
-  "technique": 'Lean 4 model of Server/Client step functions (half connection abstract) + differential correspondence over real sockets + oracle; theorems in progress',
+  "text": "Lean theorems (half connection abstract): server side complete — C07_server_connect_sound(_frame) (Connect only while processing an ACK whose nonce equals the pending entry's server-drawn nonce), C07_server_nonce_provenance (along any run a pending entry's nonce was drawn for a received SYN from that address and its SYN-ACK was sent there), C07_server_connect_once, C07_forged_noop_server, C07_undecodable_noop, C07_refusal_server / C07_accept_only_if, C07_agreement / C07_agreement_frames / C07_agreement_exchange (both ends derive matching sequence bases and limits); client-side theorems in Props/C07Client (when landed). Tied to real Client/Server by ep correspondence with forged handshake frames; oracle on nonce chains, first frame ids and refusal codes.",
+  "note": 'Trusted: Lean kernel (propext, Classical.choice, Quot.sound), extract_consts.py, relay harness. Client-half theorems pending integration.',
+  "technique": 'Lean 4 proofs over server runs + differential correspondence over real sockets + oracle',
   "design_ref": "DESIGN.md section 6 / C07",
  },
  "C08": {
@@ -78,15 +78,15 @@ CHECKS = {
   "design_ref": "DESIGN.md section 6 / C10",
  },
  "C17": {
-  "text": 'Same model; servers with limits 1..8 against up to 8 clients with overlapping handshakes; oracle: established connections <= max_active at all times (found and repaired F10).',
-  "note": 'Partial until the endpoint theorems land (in progress): the claim rests on exact correspondence of model and real Client/Server plus the implementation-side oracle. Trusted: relay harness, loopback UDP ordering.',
-  "technique": 'Lean 4 model of Server/Client step functions (half connection abstract) + differential correspondence over real sockets + oracle; theorems in progress',
+  "text": 'Lean theorems on the server model for every half-connection behaviour: C17_inv (in every reachable state pending+active entries <= max_active_connections and tracked entries <= max_total_connections), C17_syn_adds_only_below, C17_frame_counts, C17_hsAck_counts, C17_other_ops_counts (no other operation adds entries or turns one pending/active), C17_refuse / C17_refuse_frame (a SYN at a reached limit gets exactly one ServerFull reply and changes nothing), C17_release / C17_release_drop. Defect F10 (limits joined by &&, pending not counted) found by the oracle, repaired, and the invariant proved on the repaired model. Tied to the real Server by ep correspondence (limits 1..8, up to 8 overlapping clients).',
+  "note": 'Trusted: Lean kernel (propext, Quot.sound), extract_consts.py, relay harness, loopback UDP ordering.',
+  "technique": 'Lean 4 invariant proof over server runs (well-formedness invariant WF, half connection abstract) + differential correspondence over real sockets + oracle',
   "design_ref": "DESIGN.md section 6 / C17",
  },
  "C18": {
-  "text": 'Same model; raw peers send valid/repeated/undersized/oversized/wrong-version/refused SYNs and stray frames; per address bytes sent by the server stay strictly below bytes received until the handshake completes.',
-  "note": 'Partial until the endpoint theorems land (in progress): the claim rests on exact correspondence of model and real Client/Server plus the implementation-side oracle. Trusted: relay harness, loopback UDP ordering.',
-  "technique": 'Lean 4 model of Server/Client step functions (half connection abstract) + differential correspondence over real sockets + oracle; theorems in progress',
+  "text": 'Lean theorems: C18_ratio_owed / C18_ratio / C18_ratio_strict — for every run of the server model and every address without a Connect event, 1472*bytes_sent <= 25*(1+RESEND_COUNT)*bytes_received, hence sent < received whenever anything was sent (ghost counters over arbitrary arrival histories, potential function for owed SYN-ACK resends); ingredients C18_frame_lengths, C18_syn_datagram_full (a SYN parses only at 1472 bytes, via C16), C18_only_syn_triggers, C18_syn_outcomes, C18_timer_accounting, C18_other_sends; C18_undersized_ignored. Constants (resend count, frame sizes) come from the translator, so changing them breaks the proof. Tied to the real Server by ep correspondence with raw peers.',
+  "note": 'Trusted: Lean kernel (propext, Quot.sound), extract_consts.py, relay harness.',
+  "technique": 'Lean 4 proof by invariant over server runs with ghost byte counters + differential correspondence over real sockets + oracle',
   "design_ref": "DESIGN.md section 6 / C18",
  },
 }
